@@ -17,7 +17,9 @@ from common import LEAN, Driver, Report, check_proofs, proof_coverage, rng
 from gen import Cfg, G, required_version
 from pipeline import Case, exec_diff, load_corpus, replay_case
 
-PROOF_MODULES = ["PyTealV.Proofs.Sim", "PyTealV.Proofs.ShapeMach", "PyTealV.Proofs.ShapeOps", "PyTealV.Proofs.ShapeSem", "PyTealV.Proofs.ShapeGen", "PyTealV.Proofs.Shape", "PyTealV.Proofs.C01"]
+PROOF_MODULES = ["PyTealV.Proofs.Sim", "PyTealV.Proofs.ShapeMach", "PyTealV.Proofs.ShapeOps", "PyTealV.Proofs.ShapeSem", "PyTealV.Proofs.ShapeGen", "PyTealV.Proofs.Shape", "PyTealV.Proofs.C01",
+                 # renaming invariance of the source semantics and `compile_correct_original` (the theorem about the ORIGINAL tree)
+                 "PyTealV.Proofs.RenameLemmas", "PyTealV.Proofs.RenameSem", "PyTealV.Proofs.Rename", "PyTealV.Proofs.CompileOriginal"]
 TRUSTED = [
     "Lean 4 kernel; axioms propext, Classical.choice, Quot.sound only",
     "AVM spec lean/PyTealV/Avm (TEAL grammar, opcode semantics execPrim, machine step)",
@@ -82,6 +84,10 @@ def run(tier: str) -> int:
             stats["validate:" + verdict.split(" ")[0]] += 1
             if ok:
                 stats["theorem gen_correct applies (fragment=true)" if "fragment=true" in verdict else "outside proven fragment (validated + executed only)"] += 1
+                # do the hypotheses of `CompileOriginal.compile_correct_originalMainB` hold: the theorem about the ORIGINAL
+                # tree (this recipe), not about its renamed form (`Check.renameOk` for the discovered bindings)?
+                orig = d.ask(f"c01-original {v} {case.teal.encode().hex()} {case.sexp}")
+                stats["original_theorem:" + " ".join(w for w in orig.split(" ") if w.split("=")[0] in ("original", "valid", "fragment", "renameOk"))] += 1
             bad = exec_diff(case, r, cfg["nctx"], stats)
             if ok and bad is None:
                 validated += 1
@@ -118,6 +124,7 @@ def run(tier: str) -> int:
         "programs": programs,
         "disagreements_checked": disagreements,
         "validated_by_certificate": validated,
+        "original_theorem": {k.split(":", 1)[1]: v for k, v in sorted(stats.items()) if k.startswith("original_theorem:")},
         "samples": samples or [{"note": "no program validated"}],
         "evaluations": sum(v for k, v in stats.items() if k.startswith("exec:")),
         "distinct_nontrivial": len(distinct),
